@@ -29,6 +29,12 @@ class Ob:
         return f'{self.rule} {self.construct}'
 
 
+# functions (qualified names) of the analysed tree that are written with names the rule tables do not know -> reason; set per run
+RESTRUCTURED: dict[str, str] = {}
+# rules that decide by evaluating the code (E10) or by the mere presence of a construct: never demoted
+SEMANTIC_RULES = {'N7', 'D7', 'X6', 'E7', 'P7', 'J7', 'V4', 'I7'}
+
+
 def _construct(target: 'ast.AST | str', instance: str | None = None) -> tuple[str, str]:
     if isinstance(target, str):
         c, s = target, ''
@@ -53,8 +59,13 @@ class Checker:
         c, s = _construct(target, instance)
         self.obs.append(Ob(f'{self.pid}.{rule}', c, s, 'ok', how, nontrivial))
 
-    def bad(self, rule: str, target: 'ast.AST | str', why: str, instance: str | None = None) -> None:
+    def bad(self, rule: str, target: 'ast.AST | str', why: str, instance: str | None = None, semantic: bool = False) -> None:
         c, s = _construct(target, instance)
+        head = c.split(' [', 1)[0]
+        if not semantic and rule not in SEMANTIC_RULES and head in RESTRUCTURED:
+            # a structural rule on code written with names it does not know: it cannot tell a defect from a rewrite
+            self.obs.append(Ob(f'{self.pid}.{rule}', c, s, 'incomplete', f'{why}  [not decided: {head} {RESTRUCTURED[head]}; the structural rule does not refute restructured code]', True))
+            return
         self.obs.append(Ob(f'{self.pid}.{rule}', c, s, 'violation', why, True))
 
     def incomplete(self, rule: str, target: 'ast.AST | str', why: str, instance: str | None = None) -> None:
@@ -70,11 +81,12 @@ class Checker:
         why_bad: str,
         instance: str | None = None,
         nontrivial: bool = True,
+        semantic: bool = False,
     ) -> bool:
         if cond:
             self.ok(rule, target, how_ok, instance, nontrivial)
         else:
-            self.bad(rule, target, why_bad, instance)
+            self.bad(rule, target, why_bad, instance, semantic=semantic)
         return cond
 
     def floor(self, rule: str, count: int, minimum: int, what: str) -> None:
